@@ -43,7 +43,7 @@ var builtinRenames = []struct{ re *regexp.Regexp; to string }{
 var callParams = []string{"pa", "pb", "pc"}
 
 // names that must not be visible after the calls/cases that created them
-var callProbeNames = []string{"pa", "pb", "pc", "la", "li", "lx", "mq", "ma", "loc1", "loc2", "ga", "ca", "va", "rn", "en", "on", "na", "ra", "loc3", "da", "dx", "dq", "oa", "qa", "ma1", "ma2", "mo", "mb1", "mb2", "qb", "loc4", "loc5", "wn", "wx", "lq", "lm1", "lother", "lb", "lbo", "ml1", "mlo", "wa", "t1", "t2", "t3", "fa", "fl", "fr", "ns", "nc", "sa", "acc", "sacc", "lacc", "fo", "fs", "fn", "mz1", "mz2", "mz3", "mz4", "show2", "mn1", "mn2", "mno", "zs", "zq", "rv1", "ak"}
+var callProbeNames = []string{"pa", "pb", "pc", "la", "li", "lx", "mq", "ma", "loc1", "loc2", "ga", "ca", "va", "rn", "en", "on", "na", "ra", "loc3", "da", "dx", "dq", "oa", "qa", "ma1", "ma2", "mo", "mb1", "mb2", "qb", "loc4", "loc5", "wn", "wx", "lq", "lm1", "lother", "lb", "lbo", "ml1", "mlo", "wa", "t1", "t2", "t3", "fa", "fl", "fr", "ns", "nc", "sa", "acc", "sacc", "lacc", "fo", "fs", "fn", "mz1", "mz2", "mz3", "mz4", "show2", "mn1", "mn2", "mno", "zs", "zq", "rv1", "ak", "mfv", "mf1", "mcreated"}
 
 func (c *CallCase) program() string {
 	var sb strings.Builder
@@ -112,6 +112,12 @@ function mkfresh() { fa = []
  return [fa.length(), fo.length(), fs, fn] }
 function shadow(sa, G) { G = [sa]
  return G }
+function dollar($index, $file) { return [$index, $file] }
+function dsum($index) { if ($index == 0) { return 0 }
+ return $index + dsum($index - 1) }
+function mfirst(mfv) { match (mfv) { mf1 => { mcreated = mf1 } }
+ return 1 }
+function mpeek() { return mcreated is unknown }
 function getn() { return RN }
 function addn(ak) { RN = RN + ak
  return RN }
@@ -199,6 +205,8 @@ $.op == "retval" { RN = 10
  match (getg()) { rv1 => { rv1 = "changed" } }
  print step, G }
 $.op == "leafmark" { print step, mark(), peekz() }
+$.op == "dollarparams" { print step, dollar($.a[0], $.a[1]), dsum(3), $file }
+$.op == "mfirst" { print step, mfirst($.a[0]), mpeek() }
 $.op == "proc" { print step, proc($.a[0]) }
 $.op == "walk" { print step, walk($.a[0]) }
 $.op == "mlit" { print step, match ($.a[0]) { [] => "e", [0, 0] => "o", [1, [2, 3]] => "d", [ml1, 9] => ["n", ml1], mlo => "x" } }
@@ -460,6 +468,12 @@ func (c *CallCase) model() (lines []string, exited bool, ok bool) {
 			// and changing it does not change the variable
 			emit("25 15 16")
 			emit(p(G))
+		case "dollarparams":
+			// parameters spelled like the runtime's own variables are parameters
+			emit(p(arr(arg(0), arg(1))) + " 6 ops.json")
+		case "mfirst":
+			// a variable first assigned in a case body inside a call ends with the call
+			emit("1 true")
 		case "leafmark":
 			// names a parameterless function creates by storing a member or by
 			// merely reading them are the callee's
@@ -735,8 +749,8 @@ func genCallArg(t *Tape) string {
 }
 
 func genCallOp(t *Tape) CallOp {
-	ops := []string{"id0", "id1", "id2", "id3", "id4", "loopret", "mklocal", "setg", "readg", "clobber", "viaother", "rec", "mutual", "donext", "donext2", "noret", "outer", "mexpr", "mblock", "pat", "proc", "walk", "mlit", "litmatch", "litblock", "awkloc0", "awkloc1", "awkloc2", "fresh", "fresh2", "nextstr", "shadow", "clobmiss", "nextexpr", "argorder", "argincr", "mlet", "mkfresh", "mstale", "pfname", "mnext", "retval", "leafmark"}
-	w := []int{1, 2, 2, 2, 2, 3, 3, 2, 2, 3, 2, 2, 1, 3, 2, 2, 2, 4, 3, 2, 3, 2, 3, 3, 2, 1, 2, 2, 4, 2, 2, 3, 3, 2, 3, 2, 4, 3, 4, 3, 3, 3, 3}
+	ops := []string{"id0", "id1", "id2", "id3", "id4", "loopret", "mklocal", "setg", "readg", "clobber", "viaother", "rec", "mutual", "donext", "donext2", "noret", "outer", "mexpr", "mblock", "pat", "proc", "walk", "mlit", "litmatch", "litblock", "awkloc0", "awkloc1", "awkloc2", "fresh", "fresh2", "nextstr", "shadow", "clobmiss", "nextexpr", "argorder", "argincr", "mlet", "mkfresh", "mstale", "pfname", "mnext", "retval", "leafmark", "dollarparams", "mfirst"}
+	w := []int{1, 2, 2, 2, 2, 3, 3, 2, 2, 3, 2, 2, 1, 3, 2, 2, 2, 4, 3, 2, 3, 2, 3, 3, 2, 1, 2, 2, 4, 2, 2, 3, 3, 2, 3, 2, 4, 3, 4, 3, 3, 3, 3, 3, 3}
 	op := ops[t.Weighted(w...)]
 	var args []string
 	switch op {
